@@ -70,8 +70,11 @@ def launch_image_list(repo: Repo, run: Run) -> None:
     """The images a launch trace announces reach insert_image in the order of its image list: that the list holds one
     entry per nested image record, each decoded from its own record, in record order, is C20/R2 - a necessary condition of
     "an address announced twice keeps its first identity"."""
+    if getattr(run, "is_probe", False):
+        return          # (a check run for its own obligations does not take over in turn)
     from . import c20
     probe = Run("C20", run.tier, run.repo_root)
+    probe.is_probe = True
     try:
         c20.check(repo, probe)
     except AnalysisError:
